@@ -531,13 +531,21 @@ def _mk_from_bits_fns( fields, total_nbits ):
 # _check_valid_array
 #-------------------------------------------------------------------------
 
+def _array_shape( x ):
+  shape = []
+  while isinstance( x, list ):
+    shape.append( len(x) )
+    x = x[0]
+  return shape
+
 def _recursive_check_array_types( current ):
   x = current[0]
   if isinstance( x, list ):
-    x_len  = len(x)
-    x_type = _recursive_check_array_types( x )
+    x_shape = _array_shape( x )
+    x_type  = _recursive_check_array_types( x )
     for y in current[1:]:
-      assert isinstance( y, list ) and len(y) == x_len
+      # Every sub-array has the same shape at every depth
+      assert isinstance( y, list ) and _array_shape( y ) == x_shape
       y_type = _recursive_check_array_types( y )
       assert y_type is x_type
     return x_type
